@@ -214,7 +214,9 @@ impl ToZinc for Str {
 impl ToZinc for Ref {
     fn to_zinc<W: std::io::Write>(&self, writer: &mut W) -> Result<()> {
         if let Some(dis) = &self.dis {
-            writer.write_fmt(format_args!("@{} \"{}\"", self.value, dis))?
+            writer.write_fmt(format_args!("@{} ", self.value))?;
+            // The display name is a Str, it needs the same escaping
+            Str::from(dis.as_str()).to_zinc(writer)?
         } else {
             writer.write_fmt(format_args!("@{}", self.value))?
         }
@@ -255,12 +257,10 @@ impl ToZinc for XStr {
             .next()
             .map(|c| c.to_uppercase().to_string())
             .unwrap_or_default();
-        writer.write_fmt(format_args!(
-            "{}{}(\"{}\")",
-            first,
-            chars.as_str(),
-            self.value
-        ))?;
+        writer.write_fmt(format_args!("{}{}(", first, chars.as_str()))?;
+        // The value is a Str, it needs the same escaping
+        Str::from(self.value.as_str()).to_zinc(writer)?;
+        writer.write_all(b")")?;
         Ok(())
     }
 }
